@@ -1,4 +1,5 @@
 CONSTANTS
+  OpenFx = {}
   ElemNames <- C_ElemNames
   AttrNames <- C_AttrNames
   AttrValues <- C_AttrValues
@@ -10,6 +11,7 @@ CONSTANTS
   MaxDepth = 4
   MaxEvents = 12
   SurplusEnd = FALSE
+  EmitFam = "C01"
   EmitOn = FALSE
 INIT Init
 NEXT Next
